@@ -266,6 +266,15 @@ def load_property(pid):
     with open(path, "rb") as fh:
         d = tomllib.load(fh)
     assert d["property"] == pid
+    # units shared with another property: same template / extraction, obligations renamed
+    for inc in d.get("include", []):
+        with open(os.path.join(UNITS_DIR, inc["property"] + ".toml"), "rb") as fh:
+            other = tomllib.load(fh)
+        src = next(u for u in other["unit"] if u["id"] == inc["unit"])
+        text = json.dumps(src).replace(inc["unit"] + ".", inc["as"] + ".").replace('"id": "%s"' % inc["unit"], '"id": "%s"' % inc["as"])
+        u = json.loads(text)
+        u["shared_with"] = inc["unit"]
+        d.setdefault("unit", []).append(u)
     for u in d.get("unit", []):
         u.setdefault("function", [])
         u.setdefault("harness", [])
